@@ -7,30 +7,46 @@ COQ_SAMPLE = 40
 SRC_FACTS = ["pos_line_lo", "pos_line_hi_inclusive", "pos_ascii_clamp", "pos_column_runes", "end_len_chars",
              "end_tag_len_chars", "scalar_range_runes"]
 RULE = ("regression corpus (the documents of every finding); exhaustive family: scalar form x place (block value, "
-        "key, block sequence element, flow mapping value, flow sequence element, nested) x text before the node on its "
-        "line (none / ASCII / non-ASCII / TAB) x final newline (yes / no) x position (first / last entry); random "
-        "environments (block and flow collections, plain / quoted / multi-line / literal / folded / tagged / anchored "
-        "scalars, interpolations and symbols (also preceded in the same scalar by literal `$`, `$$`, `$x`, `a$`, non-ASCII "
-        "text and combinations of them, plain and quoted), builtins, comments, non-ASCII keys and values of 2-, 3- and 4-byte "
-        "width-1 characters, TABs) with 0-2 imported environments, check and eval mode; erroneous programs (unknown "
+        "key, block sequence element, flow mapping value, flow sequence element, nested, multi-line flow collection, "
+        "flow-style `values:`) x text before the node on its line (none / ASCII / non-ASCII width-1 / TAB / East-Asian wide / "
+        "emoji / flag / combining sequence) x final newline (yes / no) x position (first / last entry); documents with lines of "
+        "4.5-6 KiB (ASCII and non-ASCII, a plain scalar, an interpolation at the end of the line, flow sequences of 300-400 "
+        "elements on one line) and of 72 KiB (thorough: 200 KiB, 70 KiB on one line, a 100 KiB block scalar, random 70 KiB "
+        "documents); random environments (block and flow collections also written over several lines, flow-style values, "
+        "plain / quoted / multi-line / literal / folded / tagged / anchored scalars, interpolations and symbols (also preceded in "
+        "the same scalar by literal `$`, `$$`, `$x`, `a$`, non-ASCII and wide text and combinations of them, plain and quoted), "
+        "builtins, comments, keys / values / accessor names of 2-, 3- and 4-byte characters of width 0, 1, 2 and 3 and of "
+        "multi-code-point clusters, TABs) with 0-2 imported environments, check and eval mode; erroneous programs (unknown "
         "references, bad builtins, aliases, non-string keys, missing and cyclic imports).  Every document is also "
-        "evaluated as a root so that imported expressions are walked.  non-trivial = at least one non-zero range; "
-        "distinct by case content")
+        "evaluated as a root so that imported expressions are walked.  A run that panics or kills the process is a failure of "
+        "the specification (replay = the documents).  non-trivial = at least one non-zero range; distinct by case content")
 ASSUMPTIONS = [
     "yaml.v3 reports 1-based (line, column) of a node's first character with columns counted in code points; this is "
     "an input of the model (the handler sends yaml.v3's own numbers for the same bytes) and is exercised, not proved",
-    "documents are CRLF-free, valid UTF-8; non-ASCII characters are width-1 single-code-point grapheme clusters "
-    "(uniseg is modelled on that domain only, plus ASCII control characters having width 0)",
+    "rivo/uniseg is an external collaborator of the code under test: the clusters uniseg.Step yields on every non-ASCII line "
+    "and uniseg.StringWidth of every prefix of every plain scalar that is not printable ASCII are inputs of the model (the "
+    "handler sends the library's own answers for the same bytes); the theorems hold for every behaviour of the library and "
+    "state the domain they need (w1_prefix, u_width = nchars) as hypotheses",
+    "documents are CRLF-free, valid UTF-8",
     "ranges reached by walking Environment.Exprs in parallel with the yaml tree are compared with the model's range of "
     "exactly that node; ranges without such a path (Trace.Def, diagnostics, resolved-value and receiver ranges) are "
     "compared by membership in the set of model ranges of the named document (sub-ranges of scalars allowed for "
-    "diagnostics)",
+    "diagnostics and accessors); their number is in the distribution",
+    "a failing range counts as a recorded finding only if the model reproduces its six numbers exactly AND the failing "
+    "requirement has a recorded cause on the node the model attaches the range to (Corr.C19 header); the per-cause counts, "
+    "the zero ranges (no position, not checked) and the ranges compared by membership are in the distribution",
 ]
-TRUSTED = ["gopkg.in/yaml.v3 node positions (exercised)", "rivo/uniseg on width-1 text (exercised)"]
+TRUSTED = ["gopkg.in/yaml.v3 node positions (input of the model, exercised)",
+           "rivo/uniseg Step / StringWidth (input of the model, exercised)"]
 
 # width-1, single code point, 2/3/4-byte
 NONASCII_WORDS = ["héllo", "ünï", "ñandú", "Ωmega", "привет", "€uro", "a𐀀b", "žluť", "øre"]
 NONASCII_KEYS = ["é", "ключ", "ñ", "€", "kø", "𐀀"]
+# NOT width-1 single-code-point clusters for rivo/uniseg: East-Asian wide and fullwidth (2 columns), emoji (2), emoji with
+# variation selector / ZWJ sequence / flag (several code points, one cluster), combining sequences (two code points, one
+# cluster of width 1), Hangul, zero-width space (width 0), two-em dash (width 3)
+WIDE_WORDS = ["世界", "日本語", "ｆｕｌｌ", "😀", "a😀b", "❤️", "👨‍👩‍👧", "🇩🇪", "e\u0301t\u0301e", "한글", "x\u200by", "\u2e3a", "世e\u0301😀"]
+WIDE_KEYS = ["世", "日本", "😀", "e\u0301", "한", "ｋ", "🇩🇪"]
 ASCII_WORDS = ["abc", "hello", "x", "v1.2", "a-b_c", "some-longer-word", "q"]
 KEYS = ["a", "b", "c", "d", "e", "k", "name", "cfg", "list", "item", "x1", "y", "z", "long_key_name"]
 
@@ -46,8 +62,10 @@ class Sc:
 
 def scalar(rng, refs, flow=False, depth=0):
     k = rng.below(100)
-    if k < 14:
+    if k < 12:
         return Sc(rng.choice(ASCII_WORDS), "plain")
+    if k < 14:
+        return Sc(rng.choice(WIDE_WORDS), "plain-wide")
     if k < 24:
         return Sc(rng.choice(NONASCII_WORDS), "plain-na")
     if k < 30:
@@ -68,7 +86,7 @@ def scalar(rng, refs, flow=False, depth=0):
             r = r + rng.choice([".x", "[0]", '["k"]', ".é" if False else ".y"])
         form = rng.below(8)
         if flow:
-            return Sc('"${%s}"' % r, "interp-q")
+            return Sc('"%s${%s}"' % (rng.choice(WIDE_WORDS + [""] * 12), r), "interp-q")
         if form == 0:
             return Sc("${%s}" % r, "sym")
         if form == 1:
@@ -76,6 +94,8 @@ def scalar(rng, refs, flow=False, depth=0):
         if form == 2:
             r2 = rng.choice(refs) if refs else "nope"
             return Sc("${%s} ${%s}" % (r, r2), "interp2")
+        if form == 3 and rng.chance(1, 2):
+            return Sc("%s ${%s} %s ${%s}" % (rng.choice(WIDE_WORDS), r, rng.choice(WIDE_WORDS + ["x"]), r), "interp-wide")
         if form == 3:
             return Sc("%s ${%s}" % (rng.choice(NONASCII_WORDS), r), "interp-na")
         if form == 4:
@@ -107,8 +127,8 @@ def scalar(rng, refs, flow=False, depth=0):
     return Sc(rng.choice(["{}", "[]"]), "empty")
 
 
-DOLLAR_PIECES = ["$", "$$", "$x", "a$", "$5", "é$", "$é", "€$", "$$$", "a$b", "$$x", "x$$", "$ $", "ü"]
-ACCESS_TAILS = ["", "", ".y", "[0]", '["k"]', ".y[1]", '["a b"].z', ".caf\u00e9", ".\u043a\u043b\u044e\u0447.x", '["\u00e9"].y', ".\u00fc[0]"]
+DOLLAR_PIECES = ["$", "$$", "$x", "a$", "$5", "é$", "$é", "€$", "$$$", "a$b", "$$x", "x$$", "$ $", "ü", "世$", "$😀", "e\u0301"]
+ACCESS_TAILS = ["", "", ".世", '["😀"].y', ".e\u0301", ".y", "[0]", '["k"]', ".y[1]", '["a b"].z', ".caf\u00e9", ".\u043a\u043b\u044e\u0447.x", '["\u00e9"].y', ".\u00fc[0]"]
 
 
 def dollar_text(rng, refs):
@@ -140,7 +160,7 @@ def dollar_scalar(rng, refs, flow):
 
 def key_text(rng, used):
     for _ in range(20):
-        k = rng.choice(NONASCII_KEYS) if rng.chance(1, 5) else rng.choice(KEYS)
+        k = rng.choice(NONASCII_KEYS) if rng.chance(1, 5) else rng.choice(WIDE_KEYS) if rng.chance(1, 12) else rng.choice(KEYS)
         if rng.chance(1, 12):
             k = '"%s"' % k
         if k.strip('"') not in used:
@@ -190,6 +210,9 @@ def block_entry_lines(rng, prefix, indent, refs, depth):
         for _ in range(n):
             lines += block_entry_lines(rng, pad + "  - ", indent + 2, refs, depth + 1)
         return lines
+    if k < 31:
+        ls = flow_multiline(rng, refs, indent)
+        return [prefix + ls[0]] + ls[1:]
     if k < 44:
         return [prefix + flow_value_top(rng, refs) + comment(rng)]
     if depth < 3 and k < 52:
@@ -201,6 +224,30 @@ def block_entry_lines(rng, prefix, indent, refs, depth):
     lines = [prefix + s.text]
     for t in s.cont:
         lines.append((pad + "    " + t) if t else "")
+    return lines
+
+
+def flow_multiline(rng, refs, indent):
+    """a flow collection written over several lines (continuation lines indented deeper than the key)"""
+    pad = " " * (indent + 4)
+    used = set()
+    if rng.chance(1, 2):
+        items = ["%s: %s" % (key_text(rng, used), flow_value(rng, refs, 1)) for _ in range(2 + rng.below(3))]
+        o, c = "{", "}"
+    else:
+        items = [flow_value(rng, refs, 1) for _ in range(2 + rng.below(3))]
+        o, c = "[", "]"
+    lines = [o + items[0] + ","]
+    for it in items[1:-1]:
+        lines.append(pad + it + "," + comment(rng))
+    last = pad + items[-1]
+    form = rng.below(3)
+    if form == 0:
+        lines.append(last + c)
+    elif form == 1:
+        lines += [last, pad[:-2] + c]
+    else:
+        lines += [last + ",", pad + c]
     return lines
 
 
@@ -253,12 +300,23 @@ def gen_env(rng, imports, refs_in, final_nl=None, nvals=None):
     # unquoted names may be non-ASCII (bytes 0x85 / 0xA0 end a name in this parser: such keys are not used as references)
     refs = list(refs_in) + [k.strip('"') for k in keys if not k.startswith('"') and (k.isascii() or (
         k.isalpha() and not any(b in (0x85, 0xA0) for b in k.encode("utf-8"))))]
-    if n:
-        lines.append("values:")
-    for k in keys:
-        lines += block_entry_lines(rng, "  " + k + ": ", 2, refs, 0)
-        if rng.chance(1, 15):
-            lines.append("")
+    style = rng.below(12) if n else 99
+    if style == 0:
+        # flow-style values on one line
+        lines.append("values: {" + ", ".join("%s: %s" % (k, flow_value(rng, refs, 0)) for k in keys) + "}" + comment(rng))
+    elif style == 1:
+        # flow-style values over several lines
+        lines.append("values: {")
+        for i, k in enumerate(keys):
+            lines.append("  %s: %s%s" % (k, flow_value(rng, refs, 0), "," if i + 1 < len(keys) or rng.chance(1, 3) else ""))
+        lines.append("}" if rng.chance(1, 2) else "  }")
+    else:
+        if n:
+            lines.append("values:")
+        for k in keys:
+            lines += block_entry_lines(rng, "  " + k + ": ", 2, refs, 0)
+            if rng.chance(1, 15):
+                lines.append("")
     text = "\n".join(lines)
     if final_nl is None:
         final_nl = rng.chance(1, 2)
@@ -291,6 +349,15 @@ REGRESSION = [
     {"envs": {"m": "values:\n  p: {q: [1]}\n  é: a$ b$ ${p.q[0]} $ ${p[\"q\"]}\n  s:\n    - $x $$ é$ ${p}"}},
     {"envs": {"m": "values:\n  label: é$ $5 ${nobody} and $ ${zz.y}\n  q: \"$5 ${label}\"\n  r: '$ ${label}'"}},
     {"envs": {"m": "imports:\n  - base\nvalues:\n  x: ${label}", "base": "values:\n  label: costs $5 or ${nobody}\n"}},
+    # wide characters, emoji, combining sequences before a node / before an interpolation / as keys and accessors
+    {"envs": {"m": "values:\n  世: {a: b}\n"}},
+    {"envs": {"m": "values:\n  a: 1\n  b: 世界 ${a} 😀 ${a}\n  c: e\u0301 ${a}\n  d: \"👨‍👩‍👧${a}\"\n"}},
+    {"envs": {"m": "values:\n  世: {😀: 1}\n  e\u0301: ${世.😀}\n  r: ${世[\"😀\"]} 🇩🇪 ${e\u0301}\n"}},
+    {"envs": {"m": "values:\n  m: {ｋ: 한글, x: [❤️, y]}\n  n: [x\u200by, \u2e3a, z]"}},
+    # flow-style values, multi-line flow collections
+    {"envs": {"m": "values: {a: 1, b: \"${a}\", é: [x, y]}\n"}},
+    {"envs": {"m": "values: {\n  a: 1,\n  b: \"x ${a}\",\n  é: [x,\n    y]\n}\n"}},
+    {"envs": {"m": "values:\n  a: 1\n  m: {x: 1,\n      y: \"${a}\",\n      é: ü\n    }\n  l: [a,\n      b, c,\n      héllo]\n  z: last"}},
     # anchored / tagged scalars
     {"envs": {"m": "values:\n  f: &x 1\n  g: &y ${f}\n  h: !!str ${f}\n"}},
     # quoted, folded
@@ -311,7 +378,8 @@ REGRESSION = [
 def family(thorough):
     """exhaustive small family: one probe scalar in every place, with every kind of text before it on its line"""
     forms = ["abc", "héllo", "a𐀀", "€", "two words", "${a}", "x ${a} é", "42", '"q"', "'s'", "!!str t", "&an v",
-             "$5 ${a}", "a$ $$ ${a}", "é$ $x ${a.y} $ ${a}", "x$$ ${a}"]
+             "$5 ${a}", "a$ $$ ${a}", "é$ $x ${a.y} $ ${a}", "x$$ ${a}",
+             "世界", "😀", "e\u0301x", "世 ${a}", "👨‍👩‍👧${a} e\u0301 ${a}"]
     cases = []
     for f in forms:
         for nl in ("\n", ""):
@@ -324,6 +392,9 @@ def family(thorough):
                 "values:\n  a: 1\n  s:\n    - %s\n    - é" % f,       # block sequence element
                 "values:\n  a: 1\n  n:\n    é:\n      - k: %s" % f,   # nested
                 "values:\n  a: 1\n  k: %s # é" % f,                   # non-ASCII comment after
+                "values:\n  a: 1\n  世: %s" % f,                      # wide key before
+                "values:\n  a: 1\n  e\u0301: %s" % f,                 # combining sequence before
+                "values:\n  a: 1\n  😀:\n    - 🇩🇪: %s" % f,           # emoji / flag before
             ]
             if flow_ok:
                 docs += [
@@ -331,6 +402,10 @@ def family(thorough):
                     "values:\n  a: 1\n  m: {é: ü, x: %s, y: z}" % f,
                     "values:\n  a: 1\n  m: [é, %s, z]" % f,
                     "values:\n  a: 1\n  m: {x: \"\t\", é: %s}" % f,    # TAB and non-ASCII before
+                    "values:\n  a: 1\n  m: {世: 界, x: %s, y: z}" % f,  # wide characters before (flow)
+                    "values:\n  a: 1\n  m: [😀, e\u0301, %s]" % f,
+                    "values:\n  a: 1\n  m: {x: 1,\n    é: %s,\n    y: [z,\n      %s]}" % (f, f),   # multi-line flow
+                    "values: {a: 1, é: %s, z: [%s]}" % (f, f),            # flow-style values
                     "values:\n  a: 1\n  m: {%s: v, w: %s}" % (f, f) if f[0] not in "\"'4" else "values:\n  a: 1\n  m: {k: %s}" % f,
                 ]
             if f[0] not in "$&!x" and " " not in f and "$" not in f:
@@ -340,6 +415,55 @@ def family(thorough):
     return cases
 
 
+def big_docs(rng, thorough):
+    """documents over 64 KiB and lines over 4 KiB (ASCII and non-ASCII, block and flow), nodes also after / at the end of
+    the long line and on the last line"""
+    docs = []
+    # a plain scalar of 5000 bytes; an interpolation at the end of a 4.5 KiB plain scalar; nodes after it
+    docs.append("values:\n  a: 1\n  long: %s\n  after: ${a}\n  z: last" % ("x" * 5000))
+    docs.append("values:\n  a: 1\n  long: %s ${a} tail\n  é: %s ${a}\n" % ("word " * 900, "é" * 2100))
+    # flow sequences of 400 / 300 elements on one line of 4.8 KiB (ASCII) / 5.4 KiB (non-ASCII, one wide character)
+    docs.append("values:\n  a: 1\n  l: [%s]\n  m: {k: [%s], 世: \"${a}\"}\n" % (
+        ", ".join(["xxxxxxxxxx"] * 400), ", ".join(["héllo wörld"] * 300)))
+    # a long non-ASCII comment line before the nodes, a long key
+    docs.append("# %s\nvalues:\n  %s: v\n  é: {k: %s}" % ("é" * 3000, "k" * 900, "y" * 4200))
+    # 72 KiB: 720 entries of ~100 bytes (ASCII, non-ASCII, interpolations), no final newline on the last
+    ls = ["values:", "  a: 1"]
+    for i in range(720):
+        f = i % 11
+        if f == 3:
+            ls.append("  k%04d: héllo wörld %s é" % (i, "y" * 75))
+        elif f == 7:
+            ls.append("  k%04d: %s ${a} and ${k%04d}" % (i, "z" * 70, i - 1))
+        elif f == 9:
+            ls.append("  k%04d: {é: [x, %s], q: 世}" % (i, "w" * 75))
+        else:
+            ls.append("  k%04d: %s %d" % (i, "value text " * 8, i))
+    docs.append("\n".join(ls))
+    if thorough:
+        # 200 KiB in few nodes; 70 KiB on ONE line; a 100 KiB block scalar
+        docs.append("values:\n  a: 1\n  b: %s\n  c: ${a}\n" % ("lorem ipsum " * 17000))
+        docs.append("values: {a: 1, b: [%s], c: \"${a}\"}" % ", ".join(["element of one hundred and forty characters " + "x" * 97] * 500))
+        docs.append("values:\n  a: 1\n  t: |\n%s  c: ${a}\n" % ("    block line é\n" * 6000))
+        for j in range(3):
+            g = rng.fork("big%d" % j)
+            g.safe = True        # (an undefined alias makes yaml.v3 reject the whole document)
+            ls = ["values:", "  a: 1"]
+            used = set(["a"])
+            size = 16
+            while size < 70000:
+                e = block_entry_lines(g, "  k%d: " % len(ls), 2, ["a"], 1)
+                # (one malformed entry makes yaml.v3 reject the whole document: a TAB before a comment after `key:`, a
+                #  quoted subscript inside a double-quoted scalar; a load diagnostic leaves no expressions; the small documents
+                #  keep those)
+                if any("\t#" in x or '["' in x or "['" in x for x in e):
+                    continue
+                ls += e
+                size += sum(len(x.encode("utf-8")) + 1 for x in e)
+            docs.append("\n".join(ls) + ("\n" if g.chance(1, 2) else ""))
+    return [{"envs": {"m": d}, "main": "m", "mode": "check"} for d in docs]
+
+
 def gen(rng, tier):
     thorough = tier == "thorough"
     cases = []
@@ -347,8 +471,14 @@ def gen(rng, tier):
         cases.append({"envs": dict(r["envs"]), "main": "m", "mode": r.get("mode", "check")})
     for c in family(thorough):
         cases.append({"envs": c["envs"], "main": "m", "mode": "check"})
+    # (the big documents are spread over the case list: the model runner splits the lines into contiguous chunks, one
+    #  process each, and every big document costs seconds to minutes)
+    big = big_docs(rng.fork("big"), thorough)
     n = 20000 if thorough else 700
+    every = max(1, n // (len(big) + 1))
     for i in range(n):
+        if i % every == 0 and big:
+            cases.append(big.pop())
         g = rng.fork("doc%d" % i)
         envs = {}
         nimp = g.choice([0, 0, 0, 1, 1, 2])
@@ -369,7 +499,7 @@ def gen(rng, tier):
         t, _ = gen_env(g.fork("main"), imports, refs)
         envs["m"] = t
         cases.append({"envs": envs, "main": "m", "mode": "eval" if g.chance(1, 3) else "check"})
-    return cases
+    return cases + big
 
 
 # ---------------------------------------------------------------------------------------------------
@@ -378,15 +508,23 @@ def prepare(c):
             "mode": c.get("mode", "check")}
 
 
+def crashed(o):
+    """the run of this case panicked (recovered by implrun) or killed / hung the process (detected by the driver)"""
+    return "crash" in o or "panic" in o or "docs" not in o
+
+
 def line(c, o):
-    if "crash" in o or "panic" in o or "docs" not in o:
-        return "(crash)"
+    # a crash is a failure of the specification with the documents as replay, never a pass (Corr.C19: CCrash)
+    if crashed(o):
+        return "(crash %s)" % ("panic" if "panic" in o else "crash")
     docs = []
     for d in o["docs"]:
         text = c["envs"][d["name"]].encode("utf-8")
-        nodes = " ".join("(n %d %d %d %d x%s x%s %d %s)" % (n["line"], n["col"], n["kind"], n["style"], n["tag"], n["value"],
-                                                             n["last"], "t" if n.get("anch") else "f") for n in d["nodes"])
-        docs.append("(d %s %s (%s))" % (C.sx(d["name"]), C.sx(text), nodes))
+        nodes = " ".join("(n %d %d %d %d x%s x%s %d %s (%s))" % (
+            n["line"], n["col"], n["kind"], n["style"], n["tag"], n["value"], n["last"], "t" if n.get("anch") else "f",
+            " ".join("%d" % w for w in n.get("pw") or [])) for n in d["nodes"])
+        segs = " ".join("(s %s)" % " ".join("%d" % x for x in row) for row in d.get("segs") or [])
+        docs.append("(d %s %s (%s) (%s))" % (C.sx(d["name"]), C.sx(text), nodes, segs))
     rs = []
     for r in o["ranges"]:
         b, e = r["b"], r["e"]
@@ -408,9 +546,35 @@ def shrink(c):
             d = dict(c, envs={a: b for a, b in envs.items() if a != k})
             d.pop("id", None)
             yield d
-    # drop one line of one document (largest documents first)
+    # cut long lines down (documents with lines of several KiB): halve the longest run of one repeated character / word
     for k in sorted(envs, key=lambda k: -len(envs[k])):
         ls = envs[k].split("\n")
+        i = max(range(len(ls)), key=lambda i: len(ls[i]))
+        if len(ls[i]) > 300:
+            l = ls[i]
+            for a, b in ((len(l) // 4, 3 * len(l) // 4), (len(l) // 2, len(l) - 40), (60, len(l) // 2)):
+                if 0 < a < b < len(l):
+                    t = "\n".join(ls[:i] + [l[:a] + l[b:]] + ls[i + 1:])
+                    d = dict(c, envs=dict(envs, **{k: t}))
+                    d.pop("id", None)
+                    yield d
+    # drop blocks of lines (halves, quarters, eighths) of a document with many lines, then single lines (largest
+    # documents first)
+    for k in sorted(envs, key=lambda k: -len(envs[k])):
+        ls = envs[k].split("\n")
+        n = len(ls)
+        if n > 16:
+            for parts in (2, 4, 8, 16):
+                for j in range(parts):
+                    a, b = max(1, j * n // parts), (j + 1) * n // parts
+                    keep = ls[:a] + ls[b:]
+                    if any(x in ("values:", "imports:") for x in ls[a:b]) or not "".join(keep).strip():
+                        continue
+                    d = dict(c, envs=dict(envs, **{k: "\n".join(keep)}))
+                    d.pop("id", None)
+                    yield d
+        if len(envs[k]) > 20000:
+            continue        # (every candidate costs a full evaluation: big documents are only cut in blocks)
         for i in range(len(ls)):
             if ls[i] in ("values:", "imports:"):
                 continue
@@ -429,18 +593,45 @@ def describe(c):
     return {"envs": c["envs"], "mode": c.get("mode", "check")}
 
 
+STAT_FIELDS = ["ranges:non-zero", "ranges:zero(no-position,not-checked)", "ranges:without-node(compared-by-membership)",
+               "ranges:failing", "ranges:failing:model-does-not-reproduce", "ranges:failing:outside-known-classes",
+               "ranges:excused:C19-bytes", "ranges:excused:C19-past-eol", "ranges:excused:C19-zero-width",
+               "ranges:excused:C19-anchored", "ranges:excused:C19-accessor-multiline", "ranges:excused:C19-accessor-tab",
+               "ranges:with-irregular-uniseg-clusters-before-a-position", "ranges:accessor-checked-for-spelling-only"]
+
+
+def model_stats(lines):
+    """the counts Corr.C19.stats computes (per case) — the classes are decided by the Coq predicates, not by Python"""
+    exe, _ = C.build_modelrun(ID)
+    if exe is None:
+        return None
+    qs = ["(c19s " + l[len("(c19 "):] for l in lines]
+    out = C.run_model_lines(exe, qs)
+    res = []
+    for v in out:
+        if v is None:
+            res.append(None)
+            continue
+        res.append([(v // 10 ** (6 * k)) % 10 ** 6 for k in range(len(STAT_FIELDS))])
+    return res
+
+
 def distribution(cases, r):
     d = {}
 
     def inc(k, n=1):
         d[k] = d.get(k, 0) + n
 
+    for k in ("crash-or-hang(process)", "panic(recovered)", "root-load-failed-legitimately(loaderr/loaddiag,no-ranges-expected)"):
+        d[k] = 0
     for c, o in zip(cases, r["obs"]):
-        if "docs" not in o:
-            inc("crash-or-panic")
+        if crashed(o):
+            inc("panic(recovered)" if "panic" in o else "crash-or-hang(process)")
             continue
         st = o.get("status", {}).get(c.get("main", "m"), "?")
         inc("root:" + st)
+        if st in ("loaderr", "loaddiag"):
+            inc("root-load-failed-legitimately(loaderr/loaddiag,no-ranges-expected)")
         inc("mode:" + c.get("mode", "check"))
         inc("envs:%d" % len(c["envs"]))
         m = c["envs"][c.get("main", "m")]
@@ -449,11 +640,22 @@ def distribution(cases, r):
             inc("has-non-ascii")
         if any("\t" in t for t in c["envs"].values()):
             inc("has-tab")
+        if any(len(t.encode("utf-8")) > 65536 for t in c["envs"].values()):
+            inc("has-document-over-64KiB")
+        if any(len(l.encode("utf-8")) > 4096 for t in c["envs"].values() for l in t.split("\n")):
+            inc("has-line-over-4KiB")
+        if any(not dd.get("yaml_ok", True) for dd in o["docs"]):
+            inc("has-document-yaml.v3-rejects(no-node-tree)")
         for g in o["ranges"]:
             inc("range:" + g["what"] + (":resolved" if g["node"] >= 0 else ""))
         # yaml.v3's columns are code points: a plain scalar is found in the text at its (line, column)
         for dd in o["docs"]:
             ls = c["envs"][dd["name"]].split("\n")
+            for row in dd.get("segs") or []:
+                if any(row[i] != 1 or False for i in range(2, len(row), 2)) or len(ls[row[0]]) != (len(row) - 1) // 2:
+                    inc("lines:uniseg-clusters-not-one-width-1-code-point-each")
+                else:
+                    inc("lines:non-ascii-regular")
             for n in dd["nodes"]:
                 if n["kind"] == 8 and n["style"] == 0 and not n.get("anch"):
                     v = bytes.fromhex(n["value"]).decode("utf-8", "replace")
@@ -461,8 +663,18 @@ def distribution(cases, r):
                     if v and l[n["col"] - 1:n["col"] - 1 + len(v)] == v:
                         inc("plain-scalar-nodes:text-at-yaml-position-is-the-value")
                     elif v:
-                        inc("plain-scalar-nodes:multi-line-or-decorated")
+                        inc("plain-scalar-nodes:multi-line-or-decorated(slice-not-required)")
     d["cases-with-known-class-failures"] = len(r.get("spec_fail_known", []))
+    # per-class counts from the Coq predicates
+    idx = sorted(r.get("lines", {}))
+    lines = [r["lines"][i] for i in idx if r["lines"][i].startswith("(c19 ")]
+    st = model_stats(lines)
+    if st is None or any(x is None for x in st):
+        d["stats"] = "unavailable"
+    else:
+        for k, name in enumerate(STAT_FIELDS):
+            d[name] = sum(x[k] for x in st)
+            d["cases-with:" + name] = sum(1 for x in st if x[k])
     return d
 
 
